@@ -125,6 +125,10 @@ pub fn vec_resize_u8(v: &mut Vec<u8>, new_len: usize, value: u8)
 pub axiom fn lemma_into_identity<T>()
     ensures forall|x: T, y: T| #[trigger] call_ensures(<T as Into<T>>::into, (x,), y) ==> y == x,
         forall|x: T| #[trigger] call_requires(<T as Into<T>>::into, (x,));
+/// the LAST step that led to the writer `w` was the End tag of `tag` (the same name)
+pub open spec fn end_written<W: Write>(tag: BytesStart, w: Writer<W>) -> bool {
+    exists|en: BytesEnd, w2: Writer<W>| en.name@ == tag.buf@.subrange(0, tag.name_len as int) && #[trigger] wrote(w2, Event::End(en), w)
+}
 /// key="value" as push_attr writes it
 pub open spec fn kv(a: Attribute) -> Seq<u8> { a.key.0@ + seq![0x3du8, 0x22] + a.value@ + seq![0x22u8] }
 /// what separates an attribute from what precedes it in the tag: ONE space, or -- after `new_line()` has put a line break into the
@@ -410,6 +414,36 @@ impl<'a, W: Write> ElementWriter<'a, W> {
         Ok(self.writer)
     }
 //@end
-    // `write_inner_content` (a caller-supplied closure over `&mut Writer` between the Start and the End event) is not under contract
+//@extract writer::ElementWriter::write_inner_content | src/writer.rs :: impl<'a, W: Write> ElementWriter<'a, W> :: fn write_inner_content | serves=C09
+ pub fn write_inner_content<F>(self, closure: F) -> (r: io::Result<&'a mut Writer<W>>)
+    where
+        F: FnOnce(&mut Writer<W>) -> io::Result<()>,
+        requires self.ew_inv(),
+            (*self.writer).indent matches Some(i) ==> i.current_indent_len + 4 * i.indent_size <= usize::MAX, // A-size
+            // the caller's closure may be called on any writer and hands it back in a state in which one more event can be written
+            forall|x: &mut Writer<W>| closure.requires((x,)),
+            forall|x: &mut Writer<W>, o: io::Result<()>| #[trigger] closure.ensures((x,), o) ==> (o is Ok ==> (*final(x)).inv()
+                && ((*final(x)).indent matches Some(i) ==> i.current_indent_len + 2 * i.indent_size <= usize::MAX)),
+        // C09: `<tag>` is written first (one write_event step from the writer as it was), the closure writes the content, and the LAST
+        // step is the End tag with the SAME name
+        ensures r matches Ok(w) ==> *final(w) == *final(self.writer),
+            r matches Ok(w) ==> (exists|st: BytesStart, w1: Writer<W>| st.buf@ == self.start_tag.buf@ && st.name_len == self.start_tag.name_len
+                    && #[trigger] wrote(*old(self.writer), Event::Start(st), w1)),
+            r matches Ok(w) ==> end_written(self.start_tag, *w),
+    {
+        self.writer
+            .write_event(Event::Start(self.start_tag.borrow()))?;
+        closure(self.writer)?;
+        let ghost w2g = *self.writer;
+        self.writer
+            .write_event(Event::End(self.start_tag.to_end()))?;
+        proof {
+            assert(exists|en: BytesEnd| en.name@ == self.start_tag.buf@.subrange(0, self.start_tag.name_len as int)
+                && #[trigger] wrote(w2g, Event::End(en), *self.writer));
+            assert(end_written(self.start_tag, *self.writer));
+        }
+        Ok(self.writer)
+    }
+//@end
 }
 }
